@@ -3,11 +3,12 @@ import Restli.Model.CleanDir
 generator owns, and the set-style pruning the property text describes. -/
 namespace Restli.CleanDir
 
-/-- a file occurrence: directory path from the root (root first), own name, content id -/
+/-- an occurrence of a non-directory entry (regular file or symbolic link): directory path from the
+root (root first), own name, and what it holds (content id, or the link's destination text) -/
 structure FileAt where
   dirs : List Name
   name : Name
-  content : Nat
+  content : Leaf
 deriving DecidableEq, Repr
 
 def FileAt.under (n : Name) (f : FileAt) : FileAt := { f with dirs := n :: f.dirs }
@@ -58,5 +59,24 @@ def noBlockL (O : Own) : List Node → Bool
   | [] => true
   | c :: rest => noBlock O c && noBlockL O rest
 end
+
+/-- rewrite where links point (`g` on destination texts), leaving names, regular files and the
+shape alone: two trees related by `retarget` differ only in what lies at the end of their links -/
+def Leaf.retarget (g : String → String) : Leaf → Leaf
+  | .data c => .data c
+  | .link d => .link (g d)
+
+mutual
+def retarget (g : String → String) : Node → Node
+  | .file n l => .file n (l.retarget g)
+  | .dir n cs => .dir n (retargetL g cs)
+def retargetL (g : String → String) : List Node → List Node
+  | [] => []
+  | c :: rest => retarget g c :: retargetL g rest
+end
+
+/-- the symbolic links of a tree, as entry occurrences -/
+def linksOf (t : Node) : List FileAt :=
+  (files t).filter fun f => match f.content with | .link _ => true | .data _ => false
 
 end Restli.CleanDir
